@@ -245,7 +245,10 @@ class Interp:
         if isinstance(st, ast.Pass):
             return
         if isinstance(st, ast.If):
-            c = self.truth(self.eval(st.test, fr), st, fr)
+            h = self.hooks.get('if_test')
+            c = h(self, st, fr) if h is not None else None
+            if c is None:
+                c = self.truth(self.eval(st.test, fr), st, fr)
             self.exec_block(st.body if c else st.orelse, fr)
             return
         if isinstance(st, ast.For):
@@ -776,6 +779,11 @@ class Interp:
             r = h(self, f, args, kwargs, e, fr)
             if r is not NotImplemented:
                 return r
+        if isinstance(f, FuncRef) and f.node.name == 'cf_build_dblcmplx' and len(args) == 2:
+            # type-punning constructor (re at slot 0, im at slot 1; checked structurally by C20): modelled as re + i*im
+            if any(isinstance(a, Opaque) for a in args):
+                return Opaque('complex(' + ','.join(a.name if isinstance(a, Opaque) else 'fin' for a in args) + ')')
+            return X.add(to_node(args[0]), X.mul(to_node(args[1]), X.I))
         if isinstance(f, FuncRef):
             self.trace_calls.append((fr.mod.where(e) if e is not None else '', f.node.name))
             return self.call(f.mod, f.node, args, kwargs, self_obj=f.bound)
@@ -798,6 +806,7 @@ class Interp:
             s, a = f[1], f[2]
             if a == 'lower': return s.lower()
             if a == 'upper': return s.upper()
+            if a == 'strip': return s.strip()
         if isinstance(f, tuple) and f and f[0] == 'class':
             hc = self.hooks.get('construct')
             if hc is not None:
